@@ -22,12 +22,11 @@
                                    subclass of int), DeepHash._skip_this
       ignore_private_variables     the [ignore_private] field of Diff.DiffModel.cfg
 
-    Results are [Ok (entries, recorded opcode paths) | Err kind]: the only
-    exception the code raises on this universe is
-      ValueError  number_to_string(key, significant_digits=None) during key
-                  cleaning (finding K8).
-    (Before the fix 0fac13b the path printer also raised TypeError on bytes
-    dict keys - finding F5; the model followed that and was simplified with it.)
+    Results are [Ok (entries, recorded opcode paths) | Err kind].  Since the
+    fixes 0fac13b (TypeError of the path printer on bytes dict keys, F5) and
+    d664dbb (ValueError of number_to_string(key, significant_digits=None) during
+    key cleaning, K8) the code raises nothing on this universe and the model
+    never returns [Err]; the result type is kept (other blocks use it).
 
     Numbers: number_to_string and math.isclose are defined on dyadic rationals
     m / 2^e (exact); the atoms of the shared universe embed as e = 0 (int,
@@ -185,7 +184,7 @@ Definition clean_key (F : opts) (k : atom) : res atom :=
   | ABool _ | AInt _ | AHalf _ =>
       match eff_sig F, dy_of_atom k with
       | Some d, Some x => Ok (AStr (lowif F (num_tag F k ++ colon ++ num_str d x)%list))
-      | _, _ => Err EValue          (* '{:.Nonef}'.format(...) *)
+      | _, _ => Ok k                (* no precision in force: the key stays itself (d664dbb; before: ValueError, K8) *)
       end
   | AStr s => Ok (AStr (lowif F s))
   | ANone => Ok ANone
